@@ -1,6 +1,8 @@
 /-
-  GV.Model.PathClean — Go's `path.Clean` / `path.Join` (GOROOT/src/path/path.go), used by
-  `cachedPath` and `packageKey` of /repo/build/cache/cache.go.
+  GV.Model.PathClean — Go's `path.Clean` / `path.Join` (GOROOT/src/path/path.go), which `cachedPath` and
+  `packageKey` of /repo/build/cache/cache.go used BEFORE fixes/C20-key-without-path-clean.patch. Since that
+  repair the cache code no longer calls them; the model is kept for the "repaired defects" theorems of
+  GV.Props.C20 (the old scheme's collisions) and is still compared with the real `path.Clean`.
 
   Strings are byte lists (`List Nat`, '/' = 47, '.' = 46).
 
